@@ -500,7 +500,9 @@ MANIFEST_TEXT = {
         level_text="Proof: in the store model of errs, Append(acc, args) yields exactly items(acc) ++ items(args...) in order (aggregates "
                    "flattened), is nil exactly when that list is empty, returns a non-empty *Error accumulator itself, leaves every other "
                    "head unchanged (frame), repeated Appends concatenate; Wrap/WrapTyped give nil for nil and typed nil, return an *Error "
-                   "unchanged and otherwise a fresh error carrying the cause -- Coq theorems for all stores and argument lists. The model is "
+                   "unchanged and otherwise a fresh error carrying the cause -- Coq theorems for all stores and argument lists; and for EVERY history of "
+                   "operations (self-appends included) every value refers to an existing head, heads are never discarded and every node recording a "
+                   "cause shows that cause's message (invariant by induction over histories). The model is "
                    "compared with the real package after every step of generated programs, with the content of every value snapshotted.",
         level_note="Trusted: Coq kernel, extraction, drivers, harness; chains are lists per head (node aliasing not modelled, checked by snapshots); "
                    "stack trace text is harness-checked only.",
